@@ -422,6 +422,37 @@ fn execute(line: &str) -> Result<String, String> {
             };
             hex(&do_fmt(flags, w, p, pdec(arg(4)?)?)?)
         }
+        "fmtfail" => {
+            // format into a sink that fails once `cap` bytes are exceeded (a fixed-capacity buffer): a perturbation -
+            // whatever a failed write leaves behind must not leak into later calls
+            use std::fmt::Write as _;
+            struct Limited {
+                buf: String,
+                cap: usize,
+            }
+            impl std::fmt::Write for Limited {
+                fn write_str(&mut self, s: &str) -> std::fmt::Result {
+                    if self.buf.len() + s.len() > self.cap {
+                        Err(std::fmt::Error)
+                    } else {
+                        self.buf.push_str(s);
+                        Ok(())
+                    }
+                }
+            }
+            let cap = usize::from_str(arg(1)?).map_err(|e| e.to_string())?;
+            let p = match arg(2)? {
+                "-" => None,
+                t => Some(usize::from_str(t).map_err(|e| e.to_string())?),
+            };
+            let d = pdec(arg(3)?)?;
+            let mut sink = Limited { buf: String::new(), cap };
+            let r = match p {
+                None => write!(sink, "{}", d),
+                Some(p) => write!(sink, "{:.p$}", d, p = p),
+            };
+            format!("W {} {}", hex(&sink.buf), if r.is_ok() { "ok" } else { "err" })
+        }
         // ---- conversions
         "fromint" => do_fromint(arg(1)?)?,
         "toint" => do_toint(arg(1)?, pdec(arg(2)?)?)?,
